@@ -140,9 +140,19 @@ def strip_alias(repo, t: T) -> T:
 # slots
 
 
-def compute_slots(repo, col, rule: str) -> Classifier:
+def compute_slots(repo, col, rule: str, emit=("jaxedges", "rec_index", "external_inds", "pstate")) -> Classifier:
     cl = Classifier({})
+    real_col = col
+
+    class _Mute:
+        def check(self, *a, **k):
+            pass
+
+        ok = bad = unk = add = check
+
+    mute = _Mute()
     # ---- positions of the per-synapse-type arrays (jaxedges): masked by type => S, else E
+    col = real_col if "jaxedges" in emit else mute
     fi = repo.method("Module", "to_jax")
     ex = expander(repo, fi)
     st = [s for s in ex.stores if s.kind == "sub" and s.base.op == "attr" and s.base.name == "jaxedges"]
@@ -162,6 +172,7 @@ def compute_slots(repo, col, rule: str) -> Classifier:
               "to_jax no longer fills jaxnodes", node=fi.node)
 
     # ---- recordings.rec_index
+    col = real_col if "rec_index" in emit else mute
     fi = repo.method("Module", "record")
     ex = expander(repo, fi)
     found = False
@@ -184,6 +195,7 @@ def compute_slots(repo, col, rule: str) -> Classifier:
         raise AnalysisError("Module.record no longer builds the rec_index frame")
 
     # ---- external_inds[key]
+    col = real_col if "external_inds" in emit else mute
     fi = repo.method("Module", "_external_input")
     ex = expander(repo, fi)
     stores = [s for s in ex.stores if s.kind == "sub" and s.base.op == "attr" and s.base.name == "external_inds"]
@@ -220,6 +232,50 @@ def compute_slots(repo, col, rule: str) -> Classifier:
                       f"a second stimulus/clamp of a {kc} key appends {sp} "
                       f"({v.short(40) if v is not None else '?'}) to `external_inds[key]`, which holds Idx[{d}] "
                       f"(stored by the first call)", node=s.node)
+    # ---- indices carried by pstate entries: make_trainable (indices_set_by_trainables) and data_set
+    col = real_col if "pstate" in emit else mute
+    prods = []
+    fi = repo.method("Module", "make_trainable")
+    ex = expander(repo, fi)
+    for s in ex.stores:
+        if s.kind == "mcall" and s.key.name == "append" and Classifier._is_named(s.base, "indices_set_by_trainables"):
+            prods.append((fi, s.node, s.value.args[1], "make_trainable"))
+    fi2 = repo.method("Module", "data_set")
+    ex2 = expander(repo, fi2)
+    for r in ex2.returns:
+        for kv in T.find_all(r, lambda x: x.op == "kv" and x.args[0].op == "const" and x.args[0].name == "indices"):
+            prods.append((fi2, kv.node or fi2.node, kv.args[1], "data_set"))
+            break
+    if len(prods) < 2:
+        raise AnalysisError("producers of pstate indices (make_trainable / data_set) not found")
+    for kc in KCS:
+        want = "N" if kc == "node" else "E"
+        sent = False
+        okall = True
+        for pfi, node, v, nm in prods:
+            sp = cl.space(v, kc)
+            good = sp is not None and sp.s == want
+            okall &= good
+            sent |= bool(sp and sp.sentinel)
+            col.check(good, rule, pfi, f"{nm}: indices stored for a {kc} parameter are {want} rows",
+                      f"stores {sp}", f"{nm} stores {sp} for a {kc} key, expected Idx[{want}]", node=node)
+        if okall:
+            cl.slots[("pstate_indices", kc)] = want
+            cl.slots[("pstate_indices.pad", kc)] = "pad" if sent else None
+    # params_to_pstate pairs each trainable with its own index array
+    fi3 = repo.func("jaxley/utils/cell_utils.py", "params_to_pstate")
+    ex3 = expander(repo, fi3)
+    r = ex3.returns[0] if ex3.returns else None
+    ok = False
+    if r is not None and r.op == "comp":
+        z = T.find(r, lambda x: x.op == "call" and x.name == "zip")
+        kvs = {k.args[0].name: k.args[1] for k in T.find_all(r, lambda x: x.op == "kv") if k.args[0].op == "const"}
+        ok = z is not None and len(z.args) == 2 and z.args[0].op == "param" and z.args[1].op == "param" \
+            and "indices" in kvs and kvs["indices"].op == "item" and kvs["indices"].name == 1 \
+            and "val" in kvs and T.find(kvs["val"], lambda x: x.op == "item" and x.name == 0) is not None
+    col.check(ok, rule, fi3, "params_to_pstate zips values with their own index arrays",
+              "entry k pairs params[k] with indices_set_by_trainables[k]",
+              "params_to_pstate no longer pairs the k-th value with the k-th index array", node=fi3.node)
     return cl
 
 
